@@ -455,6 +455,31 @@ impl DatabaseHeader {
     }
 }
 
+#[cfg(redb_verif)]
+impl DatabaseHeader {
+    pub(super) fn verif_snapshot(&self, snapshot: &mut crate::verif::HeaderSnapshot) {
+        fn page(root: Option<BtreeHeader>) -> Option<crate::verif::Page> {
+            root.map(|h| (h.root.region, h.root.page_index, h.root.page_order))
+        }
+        snapshot.primary_slot = self.primary_slot;
+        snapshot.recovery_required = self.recovery_required;
+        snapshot.two_phase_commit = self.two_phase_commit;
+        for i in 0..2 {
+            let slot = &self.transaction_slots[i];
+            snapshot.slots[i] = crate::verif::SlotSnapshot {
+                transaction_id: slot.transaction_id.raw_id(),
+                data_root: page(slot.user_root),
+                system_root: page(slot.system_root),
+            };
+        }
+        snapshot.full_regions = self.full_regions;
+        snapshot.trailing_region_pages = self.trailing_partial_region_pages;
+        snapshot.region_max_data_pages = self.region_max_data_pages;
+        snapshot.region_header_pages = self.region_header_pages;
+        snapshot.layout_len = self.layout().len();
+    }
+}
+
 #[derive(Clone)]
 pub(super) struct TransactionHeader {
     pub(super) version: u8,
